@@ -268,6 +268,55 @@ pub struct PathFNode { pub pstack: PStack, pub laidx: usize, pub repairs: Cactus
 pub open spec fn last_of(h: Hist) -> Option<Repair> {
     match h { Hist::Cons(Node::Repair(r), _) => Some(r), Hist::Cons(Node::Merge(r, _), _) => Some(r), _ => None }
 }
+
+// ---- the cost and the position of a node are those of every repair sequence it stands for (lemmas over the
+// contracts above and those of unit c06_moves; they are proved, but they are statements about the specification, not
+// obligations on a function body) ----
+pub uninterp spec fn tok_cost(t: TIdx<$T>) -> int;          // the user's token cost function
+pub uninterp spec fn tok_at(la: int) -> TIdx<$T>;           // the token of the lexeme at input position la
+// total cost of a sequence read from position la0, and the position it ends at
+pub open spec fn rcost(s: Seq<Repair>, la0: int) -> int decreases s.len() {
+    if s.len() == 0 { 0 } else {
+        let pre = s.drop_last();
+        rcost(pre, la0) + match s.last() { Repair::InsertTerm(t) => tok_cost(t), Repair::Delete => tok_cost(tok_at(rend(pre, la0))), Repair::Shift => 0 }
+    }
+}
+pub open spec fn rend(s: Seq<Repair>, la0: int) -> int decreases s.len() {
+    if s.len() == 0 { la0 } else { rend(s.drop_last(), la0) + match s.last() { Repair::InsertTerm(_) => 0int, _ => 1int } }
+}
+// node (history h, position la, cost c) of a search that started at position la0 with cost 0
+pub open spec fn node_inv(h: Hist, la0: int, la: int, c: int) -> bool {
+    (at_terminator(h) ==> la == la0 && c == 0) && forall|s: Seq<Repair>| #[trigger] reading(h, s) ==> rcost(s, la0) == c && rend(s, la0) == la
+}
+pub open spec fn ext(h: Hist, r: Repair) -> Hist { Hist::Cons(Node::Repair(r), Box::new(h)) }
+// the start node
+pub proof fn lemma_start(la0: int)
+    ensures node_inv(Hist::Cons(Node::Terminator, Box::new(Hist::Nil)), la0, la0, 0)
+{ }
+// a move (unit c06_moves: the neighbour's history is the node's with the repair put in front, its cost the node's plus the
+// repair's, its position the node's, plus one for a delete or a shift)
+pub proof fn lemma_move(h: Hist, la0: int, la: int, c: int, r: Repair)
+    requires node_inv(h, la0, la, c)
+    ensures node_inv(ext(h, r), la0, la + (if r is InsertTerm { 0int } else { 1int }),
+        c + (match r { Repair::InsertTerm(t) => tok_cost(t), Repair::Delete => tok_cost(tok_at(la)), Repair::Shift => 0int })) // OBL: C06.cost.a_moves_cost_and_position_are_those_of_every_sequence_it_extends
+{
+    let h2 = ext(h, r);
+    assert forall|s: Seq<Repair>| #[trigger] reading(h2, s) implies
+        rcost(s, la0) == c + (match r { Repair::InsertTerm(t) => tok_cost(t), Repair::Delete => tok_cost(tok_at(la)), Repair::Shift => 0int })
+        && rend(s, la0) == la + (if r is InsertTerm { 0int } else { 1int }) by {
+        assert(own(h, r, s));
+        if at_terminator(h) { assert(s.drop_last().len() == 0); assert(rcost(s.drop_last(), la0) == 0 && rend(s.drop_last(), la0) == la0); }
+        else { assert(reading(h, s.drop_last())); }
+    }
+}
+// a merge (merge_nodes above: the readings of both nodes; dijkstra only merges nodes of one bucket, i.e. of equal cost,
+// and PathFNode::eq only holds for nodes at the same position)
+pub proof fn lemma_merge(h_old: Hist, h_new: Hist, h_fin: Hist, la0: int, la: int, c: int)
+    requires node_inv(h_old, la0, la, c), node_inv(h_new, la0, la, c), !at_terminator(h_fin),
+        forall|s: Seq<Repair>| reading(h_fin, s) <==> (reading(h_old, s) || reading(h_new, s)),
+    ensures node_inv(h_fin, la0, la, c) // OBL: C06.cost.a_merged_node_still_costs_what_each_of_its_sequences_costs
+{ }
+
 //@ctx merge_nodes: both nodes are ones the search builds, and `old` is not the start node (dijkstra pops the start node before it asks for any neighbour, so an occupied entry is always a neighbour, which has at least one repair)
 fn merge_nodes(oldn: &mut PathFNode, new: PathFNode)   // (`old` is a Verus keyword: the closure's parameter is renamed)
     requires wf(old(oldn).repairs.v()), !at_terminator(old(oldn).repairs.v()), wf(new.repairs.v()),
